@@ -106,7 +106,9 @@ impl CgCtx {
     }
 
     pub fn add_search_table(&mut self, ranges: Vec<(char, char)>) -> syn::Ident {
-        self.codegen_state.search_tables.add_table(ranges)
+        self.codegen_state
+            .search_tables
+            .add_table(&self.lexer_name, ranges)
     }
 
     pub fn take_search_tables(&mut self) -> SearchTableSet {
@@ -119,6 +121,15 @@ impl CgCtx {
 
     pub fn iter_semantic_actions(&self) -> impl Iterator<Item = (SemanticActionIdx, &RuleRhs)> {
         self.semantic_action_table.iter()
+    }
+
+    /// Name of the binary search function of this lexer. Prefixed with the lexer name so that
+    /// several lexers can be defined in one module.
+    pub fn binary_search_fn_ident(&self) -> syn::Ident {
+        syn::Ident::new(
+            &format!("{}_binary_search", self.lexer_name),
+            self.lexer_name.span(),
+        )
     }
 
     pub fn semantic_action_fn_ident(&self, action: SemanticActionIdx) -> syn::Ident {
